@@ -37,7 +37,7 @@ def cases(tier):
                          G.syntax_program(depth=2, max_statements=5), G.corpus_strategy(stdlib=False), G.syntax_program(depth=1, max_statements=8),
                          G.syntax_program(depth=1, max_statements=1), G.expr(2).map(lambda e: e + '\n'), G.valid_commented_program())
     return st.fixed_dictionaries({'code': programs, 'derivation': st.fixed_dictionaries({'frag': st.integers(0, 60), 'steps': _steps})},
-                                 optional={'history': _history, 'via': st.sampled_from(['main', 'section', 'section-verified'])})
+                                 optional={'history': _history, 'via': st.sampled_from(['main', 'section', 'section-verified']), 'own_report': st.booleans()})
 
 
 _flat_stmt = st.one_of(
@@ -127,16 +127,30 @@ def judge(case):
         if via is None:
             MAIN_REPORT.full_clear()
             classes[-1] = 'via-not-applicable'
+    rep = MAIN_REPORT
+    if via is None and case.get('own_report'):
+        # the instructor keeps this program in a report of its own (report=...), next to the main one
+        from pedal.core.report import Report
+        rep = Report()
+        classes.append('own-report')
+        if history:
+            # ... whose own main file is one of the other texts (it may not even parse) and has been looked at already
+            from pedal.core.commands import contextualize_report
+            try:
+                contextualize_report(history[0], report=rep)
+                find_matches('print(___)', report=rep)
+            except Exception:
+                pass
     for k, stage in enumerate(stages):
         pattern = stage['pattern']
         if history:
             try:
-                find_matches('print(___)', history[k % len(history)])
+                find_matches('print(___)', history[k % len(history)], report=rep)
             except Exception:
                 pass
         try:
             if via is None:
-                matches = find_matches(pattern, code)
+                matches = find_matches(pattern, code, report=rep)
             else:
                 matches = find_matches(pattern)      # the program is the report's current main code
         except BaseException as e:
